@@ -30,6 +30,52 @@ def run(ctx):
                 ch = bs.children[0]
                 res.samples.append({"body": b.path, "child": ch["full"], "value": loc.fmt(loc.canon(v, ch["value"])),
                                     "location": loc.fmt(loc.canon(v, ch["loc"]))})
+    # C04.MISSING (derived code): a MissingField report is true of the payload only if the field's state stays
+    # `Missing` exactly when its key never occurred: every path through the arm of a key (re)assigns that field's state
+    import skeleton
+    import flow
+    from lin import Finding
+    nm_ob = 0
+    nm_fs = []
+    for label, sc, local in scopes(ctx):
+        for c, b, role in sc.members:
+            if role != "root" or c.name == "deserr":
+                continue
+            v = sc.view(c, b)
+            bs = BodySites(v)
+            sk = skeleton.extract(v, bs, {})
+            nfs = []
+            if sk.named is not None:
+                nfs.append(sk.named)
+            for k, val in sk.variants.items():
+                if val[0] == "named":
+                    nfs.append(val[1])
+            gs = flow.gprime_succ(v, bs)
+            for nf in nfs:
+                if nf.errors or nf.loop_header is None:
+                    continue
+                for a in nf.arms:
+                    for fname, defs in a["assigned"].items():
+                        nm_ob += 1
+                        assign_blocks = set(d[1] for d in defs)
+                        seen = set()
+                        st = [a["entry"]]
+                        leak = False
+                        while st:
+                            x = st.pop()
+                            if x in seen or x in assign_blocks or x not in nf.loop_body:
+                                continue
+                            seen.add(x)
+                            if x == nf.loop_header:
+                                leak = True
+                                break
+                            st.extend(gs[x])
+                        if leak:
+                            nm_fs.append(Finding("C04.MISSING", b.path, "the key `%s` can be present without the state of field `%s` being updated: it may later be reported missing although it is there" % (a["key"], fname), b.span))
+                    if not a["assigned"]:
+                        nm_ob += 1
+                        nm_fs.append(Finding("C04.MISSING", b.path, "the arm of key `%s` never records that the key was seen" % a["key"], b.span))
+    res.add("C04.MISSING", nm_ob, nm_fs)
     import controls
     controls.run(ctx, res, "C04", lambda crate, b, v, bs: loc.c04_rules(v, bs, (v.b.lname(2),) if v.b.lname(2) else ("location",), v)[0])
     # C04.PTR: push_key / push_index build the right variant with prev = self
